@@ -8,6 +8,7 @@ import (
 	"encoding/json"
 	"fmt"
 	"hash/fnv"
+	"math"
 	"os"
 	"path/filepath"
 	"reflect"
@@ -16,6 +17,7 @@ import (
 	"strings"
 	"testing"
 
+	mxj "github.com/clbanning/mxj/v2"
 	"pgregory.net/rapid"
 )
 
@@ -241,6 +243,7 @@ func register[C any](prop string, check func(C, *Info) *Failure) {
 		if err := dec.Decode(&c); err != nil {
 			return nil, "", err
 		}
+		noise()
 		f := safely(check, c, &Info{})
 		if f != nil {
 			return f, matchKnown(prop, f, c), nil
@@ -268,6 +271,26 @@ func mustJSON(v interface{}) []byte {
 	return b
 }
 
+// noise runs a small fixed battery of unrelated API calls (some of which fail) before every case - in generation
+// and in replay alike. Encoding, decoding and querying are functions of their arguments alone, so nothing a
+// previous call did (pooled buffers, caches, scratch state) may show in the case that follows.
+var noiseMap = mxj.Map{"n": map[string]interface{}{"-a": "1", "l": []interface{}{"x", map[string]interface{}{"k": "y"}}, "t": "<&>"}}
+var noiseBad = mxj.Map{"rec": map[string]interface{}{"name": "x", "tag": map[string]interface{}{"-id": nil}, "z": "tail"}}
+var noiseSeq = mxj.MapSeq{"r": map[string]interface{}{"#attr": map[string]interface{}{"a": map[string]interface{}{"#text": "v", "#seq": 0}}, "e": map[string]interface{}{"#seq": 0, "#text": "t"}}}
+
+func noise() {
+	noiseBad.Xml()
+	noiseBad.XmlIndent("", " ")
+	noiseMap.Xml()
+	noiseMap.Json()
+	(mxj.Map{"f": math.NaN()}).Json()
+	noiseSeq.Xml()
+	mxj.NewMapXml([]byte(`<a><b>1</b><c x="2">3</a>`))
+	mxj.NewMapJson([]byte(`{"a":[1,{"b":2}`))
+	noiseMap.ValuesForPath("n.l.k", "k:y")
+	noiseMap.ValuesForPath("n.l[5].k[")
+}
+
 // runProp drives one property: gen draws a case, check decides it.
 func runProp[C any](t *testing.T, prop string, gen func(*rapid.T) C, check func(C, *Info) *Failure) {
 	if want := os.Getenv("VERIF_PROP"); want != "" && want != prop {
@@ -283,6 +306,7 @@ func runProp[C any](t *testing.T, prop string, gen func(*rapid.T) C, check func(
 	rapid.Check(t, func(rt *rapid.T) {
 		c := gen(rt)
 		info := &Info{}
+		noise()
 		if inflight != nil {
 			// a fatal runtime error (stack overflow, out of memory) cannot be recovered: leave the case on disk
 			// so that the driver can report it (one positional write; a stale tail after the first JSON value is ignored)
